@@ -2203,7 +2203,10 @@ class NameCheckVisitor(node_visitor.ReplacingNodeVisitor):
             task_cls = _get_task_cls(info.potential_function)
             return_value = AsyncTaskIncompleteValue(task_cls, return_value)
 
-        if isinstance(info.node, ast.AsyncFunctionDef) or info.is_decorated_coroutine:
+        if (
+            isinstance(info.node, ast.AsyncFunctionDef) and not result.is_generator
+        ) or info.is_decorated_coroutine:
+            # an async generator function does not return a coroutine
             return_value = make_coro_type(return_value)
 
         if isinstance(val, KnownValue) and isinstance(val.val, property):
